@@ -1,6 +1,6 @@
 #!/bin/bash
 # Run every seeded change against the check(s) of the property it breaks (quick run counts) and write seeded/RESULTS.md
-cd /verif
+cd "$(dirname "$(readlink -f "$0")")/.."
 declare -A RUNS=( [C09]=4000 [C10]=12000 [C12]=4000 [C19]=3000 [C20]=4500 )
 OUT=seeded/RESULTS.md
 echo "| change | property | result (quick tier) |" > $OUT; echo "|---|---|---|" >> $OUT
